@@ -451,15 +451,19 @@ def in_effect_finished(out, cseq: int) -> set:
             elif row["new"] in ("SkipStage", "CompleteStage", "JumpToStage"):
                 decided.add(ref)
     halted = set()
+
+    def halting(ref, stt):
+        # a FAILED_CONTINUE task of a stage with _blocking_failure fails the stage terminally
+        return stt in HALT or (stt == "FAILED_CONTINUE" and specs.get(ref, {}).get("ctx", {}).get("_blocking_failure"))
     for (ref, t), stt in task_status.items():
-        if stt in HALT:
+        if halting(ref, stt):
             halted.add(ref)
     for row in out["audit"]:
         if row["seq"] >= cseq:
             break
         if row["kind"] == "push" and row["new"] == "CompleteTask":
             p = json.loads(row["extra"])
-            if p.get("status") in HALT:
+            if halting(out["id_ref"].get(p.get("stage_id")), p.get("status")):
                 halted.add(out["id_ref"].get(p.get("stage_id")))
     decided |= halted          # a task already failed / stopped: the stage's failure is decided
     # ... and so is its parent's: a halted synthetic child fails (or stops) the stage it belongs to
